@@ -37,16 +37,35 @@ Print Assumptions C02_min_send_id_monotone.
 
 (* Each delivered frame is the payload of a wire message that really was delivered to that source and
    passed its SUB prefix filter, handed out under the topic the subscription maps the message's topic
-   to: nothing forged, nothing unsubscribed, exact topic mapping (non-balanced receivers, every item list). *)
+   to, and - for a subscription that lists topics - that topic is one of the listed NAMES (a SUB socket filters
+   by byte prefix: "/a/" also lets "/a/b/" through): nothing forged, nothing unsubscribed, exact topic mapping
+   (non-balanced receivers, every item list). *)
 Theorem C02_payload_and_topic_map :
   forall cid ll cs its data id bal,
     In (ORet data id bal) (snd (rrun Repaired (init_receiver cid false ll cs) its)) ->
     forall dst sm, In (dst, sm) data ->
     exists i c m, nth_error cs i = Some c /\ In (IDeliver i m) its /\
                   sub_match (subs_of (sc_mode c)) (w_wtopic m) = true /\
-                  sm = mk_stored i m /\ dst = tmap c (topic_of_wire (w_wtopic m)).
+                  sm = mk_stored i m /\ dst = tmap c (topic_of_wire (w_wtopic m)) /\
+                  match sc_mode c with SubExplicit tm => dhas (topic_of_wire (w_wtopic m)) tm = true | _ => True end.
 Proof. exact receiver_provenance. Qed.
 Print Assumptions C02_payload_and_topic_map.
+
+(* The pinned receiver violates the last clause: subscribed to 'a' only, it hands out the topic 'a/b' of the same
+   publisher (wire topic "/a/b/" passes the prefix filter "/a/" and used to be stored without looking at its name). *)
+Theorem C02_unsubscribed_topic_refuted_pinned :
+  let tl := [[97; 47; 98]; [97]] in
+  let msg wt pay := {| w_wtopic := wt; w_sid := 10; w_mid := 0; w_topics := tl; w_bal := 0; w_pay := pay |} in
+  let its := [ICall None (Some 100) 0; IDeliver 0 (msg [47; 97; 47; 98; 47] 1); IDeliver 0 (msg [47; 97; 47] 2);
+              IDeliver 0 (msg [47; 47] 0); IPoll [0%nat] 0; IPoll [0%nat] 0; IPoll [] 0; IPoll [] 0] in
+  let cs := [{| sc_eph := 0; sc_mode := SubExplicit [([97], [97])]; sc_uid := 0 |}] in
+  existsb (fun o => match o with ORet data _ _ => dhas [97; 47; 98] data | _ => false end)
+          (snd (rrun Pinned (init_receiver 7 false false cs) its)) = true /\
+  map (fun o => match o with ORet data _ _ => Some (map fst data) | _ => None end)
+      (filter (fun o => match o with ORet _ _ _ => true | _ => false end) (snd (rrun Repaired (init_receiver 7 false false cs) its)))
+  = [Some [[97]]].
+Proof. split; vm_compute; reflexivity. Qed.
+Print Assumptions C02_unsubscribed_topic_refuted_pinned.
 
 (* hidden topics ('_' prefix) never pass a subscribe-all filter; visible ones always do *)
 Theorem C02_hidden_topics_filtered :
